@@ -1354,6 +1354,13 @@ DISPATCH_ALWAYS_INLINE DISPATCH_WARN_RESULT
 static inline bool
 _dispatch_queue_try_acquire_barrier_sync(dispatch_queue_class_t dq, uint32_t tid)
 {
+	// dq_state can be the idle value while items sit on the list: the enqueuer
+	// that made the list non empty has not made its wakeup yet, and enqueuers
+	// behind it do not wake up. Like _dispatch_queue_try_reserve_sync_width(),
+	// do not overtake what was enqueued ahead of this call.
+	if (unlikely(dq._dl->dq_items_tail)) {
+		return false;
+	}
 	return _dispatch_queue_try_acquire_barrier_sync_and_suspend(dq._dl, tid, 0);
 }
 
